@@ -20,6 +20,7 @@ type pg struct {
 	allowBuilt bool
 	maxDepth   int
 	loopBound  int
+	v2          bool // v2 language: every name must be defined, no point keys
 	noNestedUse bool // use() only as a statement of its own (never inside a larger expression)
 	iterM      int // > 0 while generating the body of `for _ in m` (Go leaves insertion during map iteration unspecified)
 	loopNest   int // current loop nesting (at most 2: keeps value growth bounded)
@@ -49,11 +50,17 @@ func (g *pg) atomT(t string) string {
 		case 0, 1:
 			return g.pick(varsOf["int"])
 		case 2:
+			if g.v2 {
+				return g.pick([]string{"len(l)", "len(s)", "n"})
+			}
 			return g.pick([]string{"f1", "len(l)", "len(s)"})
 		default:
 			return g.pick([]string{"0", "1", "2", "3", "-1", "7", "9007199254740993", "9223372036854775807", "-2"})
 		}
 	case "str":
+		if g.v2 {
+			return g.pick([]string{"s", `"a"`, `""`, `"héllo"`, `"ab"`})
+		}
 		return g.pick([]string{"s", `"a"`, `""`, `"héllo"`, `"ab"`, "message", "t1"})
 	case "bool":
 		return g.pick([]string{"b", "true", "false"})
@@ -68,7 +75,10 @@ func (g *pg) atomT(t string) string {
 	case 0:
 		return "x"
 	case 1:
-		return "zz" // undefined name -> nil
+		if g.v2 && g.rng.Intn(6) != 0 {
+			return "x"
+		}
+		return "zz" // undefined name -> nil (v1) / error (v2)
 	case 2:
 		return g.pick(g.keys)
 	case 3:
